@@ -523,26 +523,42 @@ pub fn reach_bfs<M: Machine>(init: M) -> std::collections::HashMap<u128, Vec<Str
     seen
 }
 
-/// Debug: find two machines with equal keys whose successor key lists differ (an incomplete key)
+/// Find two machines with equal keys whose successor key lists differ (an incomplete key): bounded BFS that
+/// recomputes the successor keys of every machine arriving at an already-known key.
 pub fn find_key_incompleteness<M: Machine>(init: M, limit: usize) -> Option<(Vec<String>, Vec<String>, String)> {
-    let succ = |m: &M| -> Vec<(String, u128)> {
+    let succ = |m: &M| -> Vec<u128> {
         let mut ops = Vec::new();
         m.ops(&mut ops);
         ops.iter()
-            .filter_map(|op| {
+            .map(|op| {
                 let mut n = m.fork();
                 let mut out = StepOut::new();
-                std::panic::catch_unwind(std::panic::AssertUnwindSafe(|| n.apply(op, &mut out))).ok().map(|_| (M::op_str(op), n.key()))
+                match std::panic::catch_unwind(std::panic::AssertUnwindSafe(|| n.apply(op, &mut out))) {
+                    Ok(_) => n.key(),
+                    Err(_) => 0,
+                }
             })
             .collect()
     };
-    let mut seen: std::collections::HashMap<u128, (Vec<String>, Vec<(String, u128)>)> = std::collections::HashMap::new();
-    let mut q: std::collections::VecDeque<(M, Vec<String>)> = std::collections::VecDeque::new();
-    let s0 = succ(&init);
-    seen.insert(init.key(), (vec![], s0));
-    q.push_back((init, vec![]));
+    // node table: (parent node, operation that reached it)
+    let mut nodes: Vec<(usize, Option<M::Op>)> = vec![(usize::MAX, None)];
+    let path = |nodes: &Vec<(usize, Option<M::Op>)>, mut id: usize, last: Option<&M::Op>| -> Vec<String> {
+        let mut rev: Vec<String> = last.map(|o| vec![M::op_str(o)]).unwrap_or_default();
+        while id != usize::MAX {
+            if let Some(op) = &nodes[id].1 {
+                rev.push(M::op_str(op));
+            }
+            id = nodes[id].0;
+        }
+        rev.reverse();
+        rev
+    };
+    let mut seen: std::collections::HashMap<u128, (usize, Vec<u128>)> = std::collections::HashMap::new();
+    let mut q: std::collections::VecDeque<(M, usize)> = std::collections::VecDeque::new();
+    seen.insert(init.key(), (0, succ(&init)));
+    q.push_back((init, 0));
     let mut ops = Vec::new();
-    while let Some((m, path)) = q.pop_front() {
+    while let Some((m, id)) = q.pop_front() {
         if seen.len() > limit {
             break;
         }
@@ -555,17 +571,19 @@ pub fn find_key_incompleteness<M: Machine>(init: M, limit: usize) -> Option<(Vec
                 continue;
             }
             let k = n.key();
-            let mut p = path.clone();
-            p.push(M::op_str(op));
             let s = succ(&n);
-            if let Some((p0, s_old)) = seen.get(&k) {
+            if let Some((id0, s_old)) = seen.get(&k) {
                 if *s_old != s {
-                    let diff = s_old.iter().zip(s.iter()).find(|(a, b)| a != b).map(|(a, b)| format!("{} -> {:032x} vs {} -> {:032x}", a.0, a.1, b.0, b.1)).unwrap_or_else(|| format!("different operation menus: {} vs {}", s_old.len(), s.len()));
-                    return Some((p0.clone(), p, diff));
+                    let mut ops2 = Vec::new();
+                    n.ops(&mut ops2);
+                    let diff = s_old.iter().zip(s.iter()).enumerate().find(|(_, (a, b))| a != b).map(|(i, (a, b))| format!("operation #{} ({}) leads to {:032x} vs {:032x}", i, ops2.get(i).map(|o| M::op_str(o)).unwrap_or_default(), a, b)).unwrap_or_else(|| format!("different operation menus: {} vs {}", s_old.len(), s.len()));
+                    return Some((path(&nodes, *id0, None), path(&nodes, id, Some(op)), diff));
                 }
             } else {
-                seen.insert(k, (p.clone(), s));
-                q.push_back((n, p));
+                let nid = nodes.len();
+                nodes.push((id, Some(op.clone())));
+                seen.insert(k, (nid, s));
+                q.push_back((n, nid));
             }
         }
     }
